@@ -10,7 +10,6 @@ use tackler_api::filters::FilterDefinition;
 use tackler_api::metadata::items::MetadataItem;
 use tackler_core::export::{EquityExporter, EquitySettings, Export};
 use tackler_core::kernel::{BalanceGroupSettings, RegisterSettings};
-use tackler_core::parser;
 use tackler_core::report::{BalanceGroupReporter, BalanceReporter, RegisterReporter, Report};
 use tackler_core::verif_hooks as vh;
 
@@ -32,11 +31,8 @@ pub fn op_audit(case: &Value, dir: &Path) -> Value {
         Err(e) => return json!({"r": "CFGERR", "msg": e}),
     };
     let mut settings = settings;
-    let text = s(case, "text").unwrap_or_default();
-    let loaded = catch_unwind(AssertUnwindSafe(|| {
-        let mut input: &str = text.as_str();
-        parser::string_to_txns(&mut input, &mut settings).map_err(|e| e.to_string())
-    }));
+    // one text through `string_to_txns`, or several files (key `files`) through `paths_to_txns` (as op `run`)
+    let loaded = catch_unwind(AssertUnwindSafe(|| super::run::load(case, &mut settings, dir)));
     let data = match loaded {
         Ok(Ok(d)) => d,
         Ok(Err(e)) => return json!({"r": "ERR", "msg": e}),
